@@ -27,7 +27,7 @@ ASSUMPTIONS = [
 ]
 EXHAUSTIVE = {"quick": True, "thorough": True}
 SHARDS = {"quick": 12, "thorough": 14}
-FLOORS = {"quick": {"calls_with_falsy_or_mutable_defaults": 10000, "contract_evaluations_in_repo_tests": 200, "accepted_calls": 20000, "ignore_lists_checked": 20000, "method_calls": 8000, "calls_after_a_change_of_defaults": 5000, "calls_with_defaults_of_unusual_equality": 5000, "calls_of_methods_without_an_explicit_self": 300},
+FLOORS = {"quick": {"calls_of_methods_behind_a_functools_wraps_decorator": 5000, "calls_with_falsy_or_mutable_defaults": 10000, "contract_evaluations_in_repo_tests": 200, "accepted_calls": 20000, "ignore_lists_checked": 20000, "method_calls": 8000, "calls_after_a_change_of_defaults": 5000, "calls_with_defaults_of_unusual_equality": 5000, "calls_of_methods_without_an_explicit_self": 300},
           "thorough": {"contract_evaluations_in_repo_tests": 200, "accepted_calls": 100000, "ignore_lists_checked": 100000, "method_calls": 40000, "calls_after_a_change_of_defaults": 20000, "calls_of_methods_without_an_explicit_self": 1000}}
 
 
@@ -47,6 +47,10 @@ def cases(tier, seed):
             if method and not any(x[0] == "P" for x in sig):
                 # 'def f(self, /, ...)': self positional-only although the method has no positional-only parameter of its own
                 chunk.append(dict(sig=[list(s) for s in sig], method=True, dstyle=0, self_slash=True))
+            if method and len(sig) <= 4:
+                # a decorated method: the bound function is `wrapper(*args, **kwargs)` of a functools.wraps decorator (inspect.signature
+                # follows __wrapped__: the reported signature is not the one of the bound function's own code object)
+                chunk.append(dict(sig=[list(s) for s in sig], method=True, dstyle=0, wrapped=True))
             if len(chunk) >= 8:
                 yield dict(group=chunk)
                 chunk = []
@@ -56,11 +60,15 @@ def cases(tier, seed):
     yield dict(contract=True)
 
 
-def build(sig, method, dstyle=0, self_slash=False, implicit_self=False):
+DECO = ("import functools\n\n\ndef deco(fn):\n    @functools.wraps(fn)\n    def wrapper(*args, **kwargs):\n        return fn(*args, **kwargs)\n"
+        "    return wrapper\n\n\n")
+
+
+def build(sig, method, dstyle=0, self_slash=False, implicit_self=False, wrapped=False):
     src = gen_sig.source(sig, "f", method=method, dstyle=dstyle, body=gen_sig.LOCALS_BODY, self_slash=self_slash, implicit_self=implicit_self)
     ns = {}
     if method:
-        exec("class C:\n" + src, ns)
+        exec((DECO + "class C:\n    @deco\n" + src) if wrapped else ("class C:\n" + src), ns)
         obj = ns["C"]()
         return obj.f, obj
     exec(src, ns)
@@ -101,7 +109,7 @@ def run_one(case, ctx, filter_args):
     sig = tuple(tuple(s) for s in case["sig"])
     method = case["method"]
     implicit = case.get("implicit_self", False)
-    func, obj = build(sig, method, case.get("dstyle", 0), case.get("self_slash", False), implicit)
+    func, obj = build(sig, method, case.get("dstyle", 0), case.get("self_slash", False), implicit, case.get("wrapped", False))
     names = [s[1] for s in sig if s[0] in "PKO"]
     keys = names + (["*"] if any(s[0] == "V" for s in sig) else []) + \
         (["**"] if any(s[0] == "W" for s in sig) else [])
@@ -110,7 +118,7 @@ def run_one(case, ctx, filter_args):
     ign_lists = [()] + [c for r in (1, 2) for c in itertools.combinations(keys, r)]
     ign_i = 0
     reported = set()
-    sstr = ("method " if method else "") + ("(self, /) " if case.get("self_slash") else "") + ("(no explicit self) " if implicit else "") + gen_sig.sig_str(sig)
+    sstr = ("method " if method else "") + ("(behind a functools.wraps decorator) " if case.get("wrapped") else "") + ("(self, /) " if case.get("self_slash") else "") + ("(no explicit self) " if implicit else "") + gen_sig.sig_str(sig)
     for npos, kwnames in gen_sig.call_shapes(sig, method=method):
         args, kwargs = gen_sig.values_for(npos, kwnames)
         if method and npos and (npos + len(kwnames)) % 3 == 0:
@@ -129,8 +137,10 @@ def run_one(case, ctx, filter_args):
         ctx.count("accepted_calls")
         if method:
             ctx.count("method_calls")
+        if case.get("wrapped"):
+            ctx.count("calls_of_methods_behind_a_functools_wraps_decorator")
         if args or kwargs or exp:
-            ctx.sig((case["sig"], method, case.get("dstyle", 0), case.get("self_slash", False), npos, kwnames))
+            ctx.sig((case["sig"], method, case.get("dstyle", 0), case.get("self_slash", False), case.get("wrapped", False), npos, kwnames))
         if any(k in kwargs for k in [x[1] for x in sig if x[0] == "P"] + ["self"]):
             ctx.count("accepted_calls_with_a_keyword_named_like_a_positional_only_parameter")
         if case.get("dstyle"):
